@@ -117,14 +117,24 @@ theorem Request.decode_writeSingleCoil (h1 l1 h2 l2 : UInt8) (rest : Bytes) :
   simp [Request.decode, idx, read16, C18.new_standard, minRequestPduLen, e]
 
 /-- Write Multiple Coils: the decoder keeps everything after the byte count as the container's slice
-    and the quantity field as its count (it does not compare the two) -/
-theorem Request.decode_writeMultipleCoils (h1 l1 h2 l2 bc : UInt8) (data : Bytes) (h : bc.toNat ≤ data.length) :
+    and the quantity field as its count (it does not compare the two); the quantity must be one whose
+    packed size fits the one-byte count field (at most 2040 coils) -/
+theorem Request.decode_writeMultipleCoils (h1 l1 h2 l2 bc : UInt8) (data : Bytes) (h : bc.toNat ≤ data.length)
+    (hq : packedCoilsLen (rd16 h2 l2).toNat ≤ 255) :
     Request.decode (0x0F :: h1 :: l1 :: h2 :: l2 :: bc :: data) =
       .ok (.writeMultipleCoils (rd16 h1 l1) ⟨data, (rd16 h2 l2).toNat⟩) := by
   have e1 : ¬ (data.length + 1 + 1 + 1 + 1 + 1 + 1 < 6) := by omega
   have e2 : ¬ (data.length + 1 + 1 + 1 + 1 + 1 + 1 < 6 + bc.toNat) := by omega
   have e3 : 6 ≤ data.length + 1 + 1 + 1 + 1 + 1 + 1 := by omega
-  simp [Request.decode, idx, read16, C18.new_standard, minRequestPduLen, sliceFrom, e1, e2, e3]
+  have e4 : ¬ (255 < packedCoilsLen (rd16 h2 l2).toNat) := by omega
+  simp [Request.decode, idx, read16, C18.new_standard, minRequestPduLen, sliceFrom, e1, e2, e3, e4]
+
+/-- … and a quantity above 2040 is refused with `Err(ByteCount)`, however many data bytes follow -/
+theorem Request.decode_writeMultipleCoils_big (h1 l1 h2 l2 bc : UInt8) (data : Bytes)
+    (hq : 255 < packedCoilsLen (rd16 h2 l2).toNat) :
+    Request.decode (0x0F :: h1 :: l1 :: h2 :: l2 :: bc :: data) = .err (.byteCount bc) := by
+  have e1 : ¬ (data.length + 1 + 1 + 1 + 1 + 1 + 1 < 6) := by omega
+  simp [Request.decode, idx, read16, C18.new_standard, minRequestPduLen, e1, hq]
 
 theorem Request.decode_writeMultipleRegisters (h1 l1 h2 l2 bc : UInt8) (data : Bytes)
     (h : bc.toNat ≤ data.length) (hq : bc.toNat = (rd16 h2 l2).toNat * 2) :
@@ -192,7 +202,8 @@ theorem Request.decode_reqBytes (m : Spec.ReqMeaning) (hf : m.fits) (hs : m.InSc
     · show Request.decode (0x0F :: Spec.hi a :: Spec.lo a :: Spec.hi (UInt16.ofNat bs.length) ::
           Spec.lo (UInt16.ofNat bs.length) :: UInt8.ofNat ((bs.length + 7) / 8) :: Spec.packBits bs) = _
       rw [Request.decode_writeMultipleCoils _ _ _ _ _ _
-        (by rw [packBits_length]; exact Req.u8_toNat_ofNat_le _),
+        (by rw [packBits_length]; exact Req.u8_toNat_ofNat_le _)
+        (by rw [Req.rd16_hi_lo, Req.u16_toNat_ofNat_of_lt hn]; exact h255),
         Req.rd16_hi_lo, Req.rd16_hi_lo, Req.u16_toNat_ofNat_of_lt hn]
     · have := Coils.iter_packBits bs []
       rw [List.append_nil] at this
@@ -262,7 +273,7 @@ theorem Request.decode_reqBytes_sem (m : Spec.ReqMeaning) (hf : m.fits) (hu : m.
 
 theorem Coils.fromBools_ok {bs : List Bool} {t : Bytes} {c : Coils} (h : Coils.fromBools bs t = .ok c) :
     bs ≠ [] ∧ packedCoilsLen bs.length ≤ t.length ∧
-    c = ⟨Spec.packBits bs ++ t.drop (packedCoilsLen bs.length), bs.length⟩ := by
+    c = ⟨Spec.packBits bs, bs.length⟩ := by
   rw [C16.from_bools_total] at h
   split at h
   · cases h
@@ -314,9 +325,9 @@ theorem Request.Built.encodable_iff {r : Request} {m : Spec.ReqMeaning} (hb : r.
     obtain ⟨hne, hl, rfl⟩ := Coils.fromBools_ok h
     have hpos := Req.length_pos_of_ne_nil hne
     show (packedCoilsLen bs.length ≤ 255 ∧
-        packedCoilsLen bs.length ≤ (Spec.packBits bs ++ t.drop (packedCoilsLen bs.length)).length) ↔
+        packedCoilsLen bs.length ≤ (Spec.packBits bs).length) ↔
       (1 ≤ bs.length ∧ (bs.length + 7) / 8 ≤ 255)
-    rw [List.length_append, packBits_length]
+    rw [packBits_length]
     unfold packedCoilsLen
     constructor
     · intro h; exact ⟨hpos, h.1⟩
